@@ -42,6 +42,9 @@ type Engine struct {
 	MathInts bool // all integer types as mathematical Int (mode "math")
 	Hybrid   bool // int/uint as mathematical Int, sized integers as bit-vectors (mode "hybrid")
 	shapes   map[string]*Shape
+	nnDone   map[*Shape]bool
+	nonNegKeys map[string]bool // heap keys holding declared non-negative fields
+	NonNeg   map[string]bool // "pkgpath.Type.Field": declared non-negative (trusted type invariant)
 	cellID   int
 }
 
@@ -366,8 +369,17 @@ func (e *Engine) wellFormed(v Val, wf *[]*Term, input bool) {
 			}
 		}
 	case StructVal:
-		for _, f := range x.F {
+		for i, f := range x.F {
 			e.wellFormed(f, wf, input)
+			if input && e.nonNegField(x.Sh, i) {
+				if s, ok := f.(Scalar); ok {
+					*wf = append(*wf, e.geZero(s.T))
+				}
+			}
+		}
+	case PtrVal:
+		if input && x.Loc == nil {
+			*wf = append(*wf, c.ILe(x.Ref, c.Inti(0))) // pre-existing object
 		}
 	case SliceVal:
 		if e.IntIdx() {
@@ -527,7 +539,49 @@ func (e *Engine) heap(st *State, key string, s *Sort) *Term {
 	if !existed && strings.HasSuffix(key, "#ref") && strings.HasPrefix(key, "S:") {
 		e.sliceHeapAxiom(strings.TrimSuffix(key, "#ref"))
 	}
+	if !existed && e.nonNegKeys[key] {
+		c := e.C
+		r := c.Bound("r", IntSort)
+		if strings.HasPrefix(key, "S:") {
+			j := c.Bound("j", e.IdxSort())
+			c.Axioms = append(c.Axioms, c.Forall([]*Term{r, j}, e.geZero(c.Select(c.Select(h, r), j))))
+		} else {
+			c.Axioms = append(c.Axioms, c.Forall([]*Term{r}, e.geZero(c.Select(h, r))))
+		}
+	}
 	return h
+}
+
+func (e *Engine) geZero(t *Term) *Term {
+	if t.Sort == IntSort {
+		return e.C.ILe(e.C.Inti(0), t)
+	}
+	return e.C.BVSle(e.C.BVu(0, t.Sort.W), t)
+}
+
+func (e *Engine) nonNegField(sh *Shape, i int) bool {
+	if e.NonNeg == nil {
+		return false
+	}
+	n, ok := sh.Typ.(*types.Named)
+	if !ok || n.Obj().Pkg() == nil {
+		return false
+	}
+	return e.NonNeg[n.Obj().Pkg().Path()+"."+n.Obj().Name()+"."+sh.FNames[i]]
+}
+
+// nonNegLeafPaths: leaf paths of shape sh whose value is a declared non-negative field.
+func (e *Engine) nonNegLeafPaths(sh *Shape, prefix string, out map[string]bool) {
+	if sh.Kind != ShStruct {
+		return
+	}
+	for i, f := range sh.Fields {
+		p := prefix + "." + sh.FNames[i]
+		if f.Kind == ShScalar && e.nonNegField(sh, i) {
+			out[p] = true
+		}
+		e.nonNegLeafPaths(f, p, out)
+	}
 }
 
 // sliceHeapAxiom: slice headers stored in the initial heap are well formed and refer to
@@ -560,7 +614,27 @@ func (e *Engine) sliceHeapSort(leaf LeafDesc) *Sort {
 }
 func (e *Engine) objHeapSort(leaf LeafDesc) *Sort { return ArraySort(IntSort, leaf.Sort) }
 
+func (e *Engine) registerNonNeg(elem *Shape, slice bool) {
+	if e.NonNeg == nil || e.nnDone[elem] {
+		return
+	}
+	if e.nnDone == nil {
+		e.nnDone = map[*Shape]bool{}
+		e.nonNegKeys = map[string]bool{}
+	}
+	e.nnDone[elem] = true
+	paths := map[string]bool{}
+	e.nonNegLeafPaths(elem, "", paths)
+	for p := range paths {
+		if slice {
+			e.nonNegKeys["S:"+typeKey(elem.Typ)+p] = true
+		}
+		e.nonNegKeys["O:"+typeKey(elem.Typ)+p] = true
+	}
+}
+
 func (e *Engine) heapReadElem(st *State, elem *Shape, ref, idx *Term) Val {
+	e.registerNonNeg(elem, true)
 	ds := e.leafDescs(elem)
 	ts := make([]*Term, len(ds))
 	for i, d := range ds {
@@ -608,6 +682,7 @@ func (e *Engine) heapSetRows(st *State, elem *Shape, ref *Term, rows []*Term) {
 }
 
 func (e *Engine) objRead(st *State, sh *Shape, ref *Term) Val {
+	e.registerNonNeg(sh, false)
 	ds := e.leafDescs(sh)
 	ts := make([]*Term, len(ds))
 	for i, d := range ds {
